@@ -46,22 +46,31 @@ Proof.
     + apply py_index_none in E. exfalso. apply E. lia.
 Qed.
 
-Theorem emit_wellformed : forall (A : Type) (lines : list A) lineno col,
+Lemma params_ok_facts : forall P, params_ok P = true ->
+  0 <= ep_context P /\ 1 <= ep_context P + ep_after_extra P /\ 0 <= ep_after_extra P /\ 1 <= ep_prev_off P /\ ep_prev_off P <= ep_prev_min P.
+Proof.
+  intros P H. unfold params_ok in H. repeat (apply andb_true_iff in H; destruct H as [H ?]).
+  repeat match goal with E : (_ <=? _) = true |- _ => apply Z.leb_le in E end. lia.
+Qed.
+
+Theorem emit_wellformed : forall (A : Type) (P : emit_params) (lines : list A) lineno col,
+  params_ok P = true ->
   1 <= lineno <= Z.of_nat (length lines) ->
-  exists ctx, emit lines (Some lineno) col = Emitted (Some lineno) col ctx /\
+  exists ctx, emit_p P lines (Some lineno) col = Emitted (Some lineno) col ctx /\
     wellformed_position lines (Emitted (Some lineno) col ctx) /\
-    (Z.of_nat (length ctx) <= 2 * CONTEXT_LINES + 1) /\
+    (Z.of_nat (length ctx) <= 2 * ep_context P + ep_after_extra P) /\
     (forall c, col = Some c -> In (lineno, true) ctx).
 Proof.
-  intros A lines lineno col Hr. unfold emit. set (n := Z.of_nat (length lines)) in *.
+  intros A P lines lineno col Hok Hr. destruct (params_ok_facts P Hok) as [F1 [F2 [F3 [F4 F5]]]].
+  unfold emit_p. set (n := Z.of_nat (length lines)) in *.
   destruct (py_index lines (lineno - 1)) eqn:E1.
   2:{ apply py_index_none in E1. exfalso. apply E1. fold n. lia. }
-  assert (Hprev : exists b, (if 2 <=? lineno then py_index lines (lineno - 2) else Some a) = Some b).
-  { destruct (2 <=? lineno) eqn:E3; [|eexists; reflexivity]. apply Z.leb_le in E3. apply py_index_some. fold n. lia. }
+  assert (Hprev : exists b, (if ep_prev_min P <=? lineno then py_index lines (lineno - ep_prev_off P) else Some a) = Some b).
+  { destruct (ep_prev_min P <=? lineno) eqn:E3; [|eexists; reflexivity]. apply Z.leb_le in E3. apply py_index_some. fold n. lia. }
   destruct Hprev as [b Hb]. rewrite Hb.
-  set (lo := Z.max (lineno - CONTEXT_LINES) 1). set (hi := Z.min (lineno + CONTEXT_LINES + 1) (n + 1)).
+  set (lo := Z.max (lineno - ep_context P) 1). set (hi := Z.min (lineno + ep_context P + ep_after_extra P) (n + 1)).
   assert (Hlo : 1 <= lo) by (unfold lo; lia).
-  assert (Hlohi : lo <= hi) by (unfold lo, hi, CONTEXT_LINES; lia).
+  assert (Hlohi : lo <= hi) by (unfold lo, hi; lia).
   destruct (ctx_loop_ok A lines lineno (match col with Some _ => true | None => false end) (Z.to_nat (hi - lo)) lo Hlo) as [ctx [Hc Hm]].
   { rewrite Z2Nat.id by lia. unfold hi. fold n. lia. }
   rewrite Hc. exists ctx. split; [reflexivity|].
@@ -74,9 +83,9 @@ Proof.
   split; [|split].
   - cbn. split; [fold n; lia|]. split.
     + apply Forall_forall. intros e He. assert (In (fst e) (map fst ctx)) by (apply in_map; exact He).
-      apply Hin in H. fold n. unfold lo, hi, CONTEXT_LINES in H. lia.
-    + apply Hin. unfold lo, hi, CONTEXT_LINES. lia.
-  - rewrite Hlen. unfold lo, hi, CONTEXT_LINES. lia.
+      apply Hin in H. fold n. unfold lo, hi in H. lia.
+    + apply Hin. unfold lo, hi. lia.
+  - rewrite Hlen. unfold lo, hi. lia.
   - intros c Hcol. subst col.
     assert (G : forall cnt l0 cx, ctx_loop lines lineno true l0 cnt = Some cx -> In lineno (map fst cx) -> In (lineno, true) cx).
     { induction cnt as [|k IH]; intros l0 cx Hcx Hi; cbn in Hcx.
@@ -86,31 +95,33 @@ Proof.
         injection Hcx as Hcx. subst cx. cbn in Hi. destruct Hi as [Hi|Hi].
         + subst l0. left. rewrite Z.eqb_refl. reflexivity.
         + right. apply (IH (l0 + 1) rest Ek Hi). }
-    apply (G _ _ _ Hc). apply Hin. unfold lo, hi, CONTEXT_LINES. lia.
+    apply (G _ _ _ Hc). apply Hin. unfold lo, hi. lia.
 Qed.
 
 (* exactly when does show_error raise?  (n = number of lines; after fix 36cb910 the
    previous line is only looked at for lineno >= 2) *)
-Theorem emit_crash_iff : forall (A : Type) (lines : list A) lineno col,
-  emit lines (Some lineno) col = Crash <->
-  ~ (1 - Z.of_nat (length lines) <= lineno <= Z.of_nat (length lines)).
+Theorem emit_crash_iff : forall (A : Type) (P : emit_params) (lines : list A) lineno col,
+  params_ok P = true ->
+  (emit_p P lines (Some lineno) col = Crash <->
+   ~ (1 - Z.of_nat (length lines) <= lineno <= Z.of_nat (length lines))).
 Proof.
-  intros A lines lineno col. unfold emit. set (n := Z.of_nat (length lines)).
+  intros A P lines lineno col Hok. destruct (params_ok_facts P Hok) as [F1 [F2 [F3 [F4 F5]]]].
+  unfold emit_p. set (n := Z.of_nat (length lines)).
   destruct (py_index lines (lineno - 1)) eqn:E1.
   2:{ apply py_index_none in E1. fold n in E1. split; [intros _; lia|reflexivity]. }
   assert (H1 : - n <= lineno - 1 < n) by (apply py_index_some; eexists; exact E1).
-  assert (Hprev : exists b, (if 2 <=? lineno then py_index lines (lineno - 2) else Some a) = Some b).
-  { destruct (2 <=? lineno) eqn:E3; [|eexists; reflexivity]. apply Z.leb_le in E3. apply py_index_some. fold n. lia. }
+  assert (Hprev : exists b, (if ep_prev_min P <=? lineno then py_index lines (lineno - ep_prev_off P) else Some a) = Some b).
+  { destruct (ep_prev_min P <=? lineno) eqn:E3; [|eexists; reflexivity]. apply Z.leb_le in E3. apply py_index_some. fold n. lia. }
   destruct Hprev as [b Hb]. rewrite Hb.
-  set (lo := Z.max (lineno - CONTEXT_LINES) 1). set (hi := Z.min (lineno + CONTEXT_LINES + 1) (n + 1)).
+  set (lo := Z.max (lineno - ep_context P) 1). set (hi := Z.min (lineno + ep_context P + ep_after_extra P) (n + 1)).
   destruct (ctx_loop_ok A lines lineno (match col with Some _ => true | None => false end) (Z.to_nat (hi - lo)) lo) as [ctx [Hc _]].
   { unfold lo. lia. }
-  { unfold lo, hi, CONTEXT_LINES. lia. }
+  { unfold lo, hi. lia. }
   rewrite Hc. split; [discriminate|]. intros H. exfalso. apply H. lia.
 Qed.
 
-Theorem emit_without_position_total : forall (A : Type) (lines : list A) col,
-  emit lines None col = Emitted None col [].
+Theorem emit_without_position_total : forall (A : Type) (P : emit_params) (lines : list A) col,
+  emit_p P lines None col = Emitted None col [].
 Proof. reflexivity. Qed.
 
 (* the full statement (every line number the AST may carry is rendered inside
